@@ -7,6 +7,6 @@ GenNext == IF live # {} THEN \E c \in live : c = (CHOOSE x \in live : TRUE) /\ C
            ELSE Request \/ PassBegin \/ StartCalls \/ AwaitCalls \/ PassEnd \/ Builtin \/ Body \/ Flip \/ End \/ Followup \/ TeardownStep
 GenSpec == Init /\ [][GenNext]_vars
 Pred == [i \in 1..Len(results) |-> [ev |-> results[i].ev, ok |-> results[i].ok, st |-> results[i].st]]
-HookRecs == {[id |-> h, tm |-> Trig[h][1], tw |-> Trig[h][2], am |-> Await[h][1], aw |-> Await[h][2], crit |-> Crit[h], fails |-> h \in Fails] : h \in Hooks}
-PrintCase == Finished => PrintT(<<"CASE", ToJson([hooks |-> HookRecs, plan |-> Plan, bodyfails |-> BodyFails, pred |-> Pred])>>)
+HookRecs == {[id |-> h, tm |-> Trig[h][1], tw |-> Trig[h][2], am |-> Await[h][1], aw |-> Await[h][2], crit |-> Crit[h], fails |-> h \in Fails, once |-> h \in Once] : h \in Hooks}
+PrintCase == Finished => PrintT(<<"CASE", ToJson([hooks |-> HookRecs, plan |-> Plan, bodyfails |-> BodyFails, pred |-> Pred, quiet |-> Quiet])>>)
 =============================================================================
